@@ -19,10 +19,12 @@ from .model import LIB_DIRS, AnalysisError
 AUTO_FLOOR = {  # 0.6 x the detection ratio measured with VERIF_SEED=1 on /repo 5b8da99 with the final rule set (sampling noise of 400
     # mutants is about +-0.03).  The ratios of C03, C07, C15, C17, C19, C20 are low because shared / inventory rules put hundreds of
     # functions into the pool of which they look at one clause only (e.g. C20.R12 scans every function for `self.params.x = ..`).
-    'C01': 0.30, 'C02': 0.44, 'C03': 0.09, 'C04': 0.45, 'C05': 0.52, 'C06': 0.29, 'C07': 0.13, 'C08': 0.20, 'C09': 0.25, 'C10': 0.52,
+    'C01': 0.30, 'C02': 0.24, 'C03': 0.09, 'C04': 0.45, 'C05': 0.52, 'C06': 0.29, 'C07': 0.13, 'C08': 0.20, 'C09': 0.25, 'C10': 0.52,
     'C11': 0.36, 'C12': 0.43, 'C13': 0.03, 'C14': 0.14, 'C15': 0.25, 'C16': 0.24, 'C17': 0.15, 'C18': 0.17, 'C19': 0.06, 'C20': 0.07,
 }
 # properties about aliasing are probed with the value-semantics operators only (sign / index mutants cannot create an alias)
+# C02 re-measured in the continuation round (DESIGN 11.7): C02.R17 / R19 / R20 put the controllers and every sweeper of the projects into
+# its pool (2.2x the mutation points, most of them outside the clauses C02 decides): ratio 0.40 -> floor 0.24.
 AUTO_OPS = {'C12': {'uncopy', 'aliasparam'}, 'C13': {'uncopy', 'aliasparam', 'delete', 'swap'}}
 
 
